@@ -331,6 +331,25 @@ func SanitizeUTF8(s []byte) []byte {
 	return out
 }
 
+// ReplaceInvalidEach is the exact JSON spelling of a string: every invalid
+// byte becomes one U+FFFD (identity when the rule is off).
+func ReplaceInvalidEach(s []byte, r Rules) []byte {
+	if !r.JSONStrings || utf8.Valid(s) {
+		return s
+	}
+	out := make([]byte, 0, len(s)+8)
+	for i := 0; i < len(s); {
+		c, sz := utf8.DecodeRune(s[i:])
+		if c == utf8.RuneError && sz == 1 {
+			out = append(out, "\ufffd"...)
+		} else {
+			out = append(out, s[i:i+sz]...)
+		}
+		i += sz
+	}
+	return out
+}
+
 func strEq(exp, got []byte, r Rules) bool {
 	if !r.JSONStrings {
 		return bytes.Equal(exp, got)
@@ -421,17 +440,26 @@ func diff(exp, got V, r Rules, path string) string {
 			for _, em := range sortedMembers(exp.O) {
 				found := false
 				firstDiff := ""
-				for j, gm := range got.O {
-					if used[j] || !strEq(em.Key, gm.Key, r) {
-						continue
-					}
-					d := diff(em.Val, gm.Val, r, fmt.Sprintf("%s.%q", path, em.Key))
-					if d == "" {
-						used[j], found = true, true
-						break
-					}
-					if firstDiff == "" {
-						firstDiff = d
+				// pass 0 prefers the exact spelling (one U+FFFD per invalid
+				// byte), pass 1 accepts any spelling the rule allows; this keeps
+				// the greedy matching from stealing a partner that only one
+				// member can take
+				for pass := 0; pass < 2 && !found; pass++ {
+					for j, gm := range got.O {
+						if used[j] || !strEq(em.Key, gm.Key, r) {
+							continue
+						}
+						if pass == 0 && !bytes.Equal(ReplaceInvalidEach(em.Key, r), gm.Key) {
+							continue
+						}
+						d := diff(em.Val, gm.Val, r, fmt.Sprintf("%s.%q", path, em.Key))
+						if d == "" {
+							used[j], found = true, true
+							break
+						}
+						if firstDiff == "" {
+							firstDiff = d
+						}
 					}
 				}
 				if !found {
